@@ -276,8 +276,10 @@ class Contentline(str):
     """
     def __new__(cls, value, strict=False, encoding=DEFAULT_ENCODING):
         value = to_unicode(value, encoding=encoding)
-        assert '\n' not in value, ('Content line can not contain unescaped '
-                                   'new line characters.')
+        if '\n' in value:
+            # not an assert statement: python -O must not switch this off
+            raise AssertionError('Content line can not contain unescaped '
+                                 'new line characters.')
         self = super().__new__(cls, value)
         self.strict = strict
         return self
